@@ -233,6 +233,10 @@ def run(chk):
     run_acccopy(chk, prog, "H5-state", hooks, lambda src: "/test/" not in src)
     run_statecopy(chk, prog, "H7-state", hooks, lambda src: "/test/" not in src)
     chk.floor("H7-state", 5)
+    # a copy that takes the tag of a cache over takes the payload over too (K9-copytag of C10)
+    from .c10 import copy_tag_rule
+    copy_tag_rule(chk, prog)
+    chk.floor("K9-copytag", 1)
     copy_routine_paths(chk, load_program("all"), "H6-paths")
     chk.floor("H6-paths", 3)
     chk.floor("H5-state", 3)
